@@ -20,6 +20,7 @@ EXTRAS = [
     lambda rep, fb, tier: pyrules.rule_py_reducers(rep),
     lambda rep, fb, tier: pyrules.rule_py_keepdims_recombine(rep),
     lambda rep, fb, tier: pyrules.rule_py_none_guard(rep),
+    lambda rep, fb, tier: pyrules.rule_py_record_field_trim(rep),
     lambda rep, fb, tier: pyrules.rule_py_call_shape(rep),
     lambda rep, fb, tier: forward.rule_same_name(rep, fb, select=lambda f: "reduce" in f["name"], floor=50, name="FORWARD.same-name:reduce"),
     lambda rep, fb, tier: __import__("vf.rules.methodrules", fromlist=["x"]).rule_index_content(rep, fb),
